@@ -89,6 +89,11 @@ def pyErr {α : Type} (c : PyExc) : M α := raise (.py c)
 def need {α : Type} (prim : String) (args : List String) : M α :=
   raise (.unmodelled ("need\u0001" ++ prim ++ String.join (args.map (fun a => "\u0001" ++ a))))
 def liftE {α : Type} (x : Except Err α) : M α := fun s => (x, s)
+def raiseE {α : Type} (e : Err) : Except Err α := .error e
+def exprErrE {α : Type} (tag : String) : Except Err α := .error (.expr tag)
+def pyErrE {α : Type} (c : PyExc) : Except Err α := .error (.py c)
+def needE {α : Type} (prim : String) (args : List String) : Except Err α :=
+  .error (.unmodelled ("need\u0001" ++ prim ++ String.join (args.map (fun a => "\u0001" ++ a))))
 def getScope : M Scope := fun s => (.ok s, s)
 def setVar (k : String) (v : Val) : M Unit := fun s =>
   (.ok (), if (s.lookup k).isSome then s.map (fun kv => if kv.1 == k then (k, v) else kv) else s ++ [(k, v)])
@@ -101,32 +106,32 @@ def catchExpr {α : Type} (x : M α) (handler : M α) : M α := fun s =>
 
 /-! ### primitives through oracles -/
 
-def pyUpper (o : Oracles) (s : String) : M String :=
+def pyUpper (o : Oracles) (s : String) : Except Err String :=
   if isAsciiStr s then pure (upperAscii s) else
   match o.upper s with
   | some r => pure r
-  | none => need "upper" [s]
+  | none => needE "upper" [s]
 
-def pyLower (o : Oracles) (s : String) : M String :=
+def pyLower (o : Oracles) (s : String) : Except Err String :=
   if isAsciiStr s then pure (lowerAscii s) else
   match o.lower s with
   | some r => pure r
-  | none => need "lower" [s]
+  | none => needE "lower" [s]
 
 def natStr (n : Nat) : String := toString n
 def intStr (i : Int) : String := if i < 0 then "-" ++ toString (-i).toNat else toString i.toNat
 
 /-- `str(v)` -/
-def pyStr (o : Oracles) : Val → M String
+def pyStr (o : Oracles) : Val → Except Err String
   | .none => pure "None"
   | .bool b => pure (if b then "True" else "False")
   | .int i => pure (intStr i)
   | .flt b => match o.fltStr b with
     | some s => pure s
-    | none => need "fltstr" [toString b.toNat]
+    | none => needE "fltstr" [toString b.toNat]
   | .str s => pure s
   | .date d => pure d.iso
-  | v => raise (.unmodelled ("str() of " ++ v.typeName))
+  | v => raiseE (.unmodelled ("str() of " ++ v.typeName))
 
 def strictIso (s : String) : Option (Option Date) :=
   -- exactly YYYY-MM-DD with ASCII digits: decided natively; anything else goes to the oracle
@@ -139,19 +144,19 @@ def strictIso (s : String) : Option (Option Date) :=
   else none
 
 /-- `_parse_date_string` -/
-def parseDate (o : Oracles) (s : String) : M Date :=
+def parseDate (o : Oracles) (s : String) : Except Err Date :=
   match strictIso s with
   | some (some d) => pure d
-  | some none => exprErr "Invalid date format"
+  | some none => exprErrE "Invalid date format"
   | none =>
     match o.isoDate s with
     | some (some d) => pure d
-    | some none => exprErr "Invalid date format"
-    | none => need "isodate" [s]
+    | some none => exprErrE "Invalid date format"
+    | none => needE "isodate" [s]
 
-def requireStr (c : PyExc) : Val → M String
+def requireStr (c : PyExc) : Val → Except Err String
   | .str s => pure s
-  | _ => pyErr c
+  | _ => pyErrE c
 
 /-! ### iteration -/
 
@@ -252,27 +257,27 @@ def emptyAcc (start : Val) : Acc := { vals := [], cur := start, has := false, fs
 
 /-! ### the fixed function table (`_fn_*`) on already evaluated arguments -/
 
-def textPattern (fname : String) (desc : String) : List Val → M (Val × Val)
+def textPattern (fname : String) (desc : String) : List Val → Except Err (Val × Val)
   | [p] => pure (.str desc, p)
   | [t, p] => pure (t, p)
-  | _ => exprErr (fname ++ "() requires 1 or 2 arguments")
+  | _ => exprErrE (fname ++ "() requires 1 or 2 arguments")
 
 def isIntLike : Val → Option Int
   | .int i => some i
   | .bool b => some (if b then 1 else 0)
   | _ => none
 
-def fuzzyWindows (o : Oracles) (text pat : String) (thr : Float) : M Bool := do
+def fuzzyWindows (o : Oracles) (text pat : String) (thr : Float) : Except Err Bool := do
   let t := text.toList; let p := pat.toList
-  let ratioOf (a b : String) : M Float :=
+  let ratioOf (a b : String) : Except Err Float :=
     match o.ratio a b with
     | some r => pure (F r)
-    | none => need "ratio" [a, b]
+    | none => needE "ratio" [a, b]
   if p.length > t.length then
     let r ← ratioOf text pat
     pure (r ≥ thr)
   else
-    let rec go (fuel : Nat) (i : Nat) : M Bool :=
+    let rec go (fuel : Nat) (i : Nat) : Except Err Bool :=
       match fuel with
       | 0 => pure false
       | fuel + 1 =>
@@ -282,13 +287,13 @@ def fuzzyWindows (o : Oracles) (text pat : String) (thr : Float) : M Bool := do
           if r ≥ thr then pure true else go fuel (i + 1)
     go (t.length + 1) 0
 
-def thresholdOf : Val → M Float
+def thresholdOf : Val → Except Err Float
   | .int i => pure (intToFloat i)
   | .bool b => pure (if b then 1.0 else 0.0)
   | .flt b => pure (F b)
-  | _ => pyErr .typeError
+  | _ => pyErrE .typeError
 
-def callFn (o : Oracles) (ctx : Ctx) (fname : String) (args : List Val) : M Val :=
+def callFn (o : Oracles) (ctx : Ctx) (fname : String) (args : List Val) : Except Err Val :=
   match fname with
   | "contains" => do
     let (t, p) ← textPattern fname ctx.description args
@@ -299,22 +304,22 @@ def callFn (o : Oracles) (ctx : Ctx) (fname : String) (args : List Val) : M Val 
     pure (.bool (strContains pu tu))
   | "regex" => do
     let (t, p) ← textPattern fname ctx.description args
-    if !hashable p then pyErr .typeError else
+    if !hashable p then pyErrE .typeError else
     match p with
     | .str ps =>
       (match t with
        | .str ts =>
          (match o.reSearch ps ts with
           | some (some b) => pure (.bool b)
-          | some none => exprErr "Invalid regex pattern"
-          | none => need "re_search" [ps, ts])
+          | some none => exprErrE "Invalid regex pattern"
+          | none => needE "re_search" [ps, ts])
        | _ =>
          -- the pattern is compiled first: a bad pattern is reported before the bad text
          (match o.reSearch ps "" with
-          | some (some _) => pyErr .typeError
-          | some none => exprErr "Invalid regex pattern"
-          | none => need "re_search" [ps, ""]))
-    | _ => pyErr .typeError
+          | some (some _) => pyErrE .typeError
+          | some none => exprErrE "Invalid regex pattern"
+          | none => needE "re_search" [ps, ""]))
+    | _ => pyErrE .typeError
   | "normalized" => do
     let (t, p) ← textPattern fname ctx.description args
     let ps ← requireStr .attributeError p
@@ -324,7 +329,7 @@ def callFn (o : Oracles) (ctx : Ctx) (fname : String) (args : List Val) : M Val 
     pure (.bool (strContains (normalizeChars pu) (normalizeChars tu)))
   | "anyof" => do
     let du ← pyUpper o ctx.description
-    let rec go : List Val → M Val
+    let rec go : List Val → Except Err Val
       | [] => pure (.bool false)
       | p :: ps => do
         let s ← requireStr .attributeError p
@@ -345,7 +350,7 @@ def callFn (o : Oracles) (ctx : Ctx) (fname : String) (args : List Val) : M Val 
         | .int _ | .flt _ | .bool _ => pure (Val.str ctx.description, a, b)
         | _ => pure (a, b, Val.flt (B 0.80)))
       | [a, b, c] => pure (a, b, c)
-      | _ => exprErr "fuzzy() requires 1-3 arguments" : M (Val × Val × Val))
+      | _ => exprErrE "fuzzy() requires 1-3 arguments" : Except Err (Val × Val × Val))
     let ts ← requireStr .attributeError t
     let tu ← pyUpper o ts
     let ps ← requireStr .attributeError p
@@ -354,87 +359,87 @@ def callFn (o : Oracles) (ctx : Ctx) (fname : String) (args : List Val) : M Val 
     if pu.length ≤ tu.length && tu.length + 1 - pu.length == 0 then pure (.bool false) else do
       let th ← (match thr with
         | .int _ | .flt _ | .bool _ => thresholdOf thr
-        | _ => pyErr .typeError : M Float)
+        | _ => pyErrE .typeError : Except Err Float)
       let b ← fuzzyWindows o tu pu th
       pure (.bool b)
   | "extract" => do
     let (t, p) ← textPattern fname ctx.description args
-    if !hashable p then pyErr .typeError else
+    if !hashable p then pyErrE .typeError else
     match p with
     | .str ps =>
       (match t with
        | .str ts =>
          (match o.reExtract ps ts with
           | some (some s) => pure (.str s)
-          | some none => exprErr "Invalid regex pattern in extract()"
-          | none => need "re_extract" [ps, ts])
+          | some none => exprErrE "Invalid regex pattern in extract()"
+          | none => needE "re_extract" [ps, ts])
        | _ =>
          (match o.reExtract ps "" with
-          | some (some _) => pyErr .typeError
-          | some none => exprErr "Invalid regex pattern in extract()"
-          | none => need "re_extract" [ps, ""]))
-    | _ => pyErr .typeError
+          | some (some _) => pyErrE .typeError
+          | some none => exprErrE "Invalid regex pattern in extract()"
+          | none => needE "re_extract" [ps, ""]))
+    | _ => pyErrE .typeError
   | "split" => do
     let (t, d, i) ← (match args with
       | [d, i] => pure (Val.str ctx.description, d, i)
       | [t, d, i] => pure (t, d, i)
-      | _ => exprErr "split() requires 2 or 3 arguments" : M (Val × Val × Val))
+      | _ => exprErrE "split() requires 2 or 3 arguments" : Except Err (Val × Val × Val))
     match isIntLike i with
-    | none => exprErr "split() index must be an integer"
+    | none => exprErrE "split() index must be an integer"
     | some idx =>
       match t with
       | .str ts =>
         (match d with
          | .str ds =>
-           if ds.isEmpty then pyErr .valueError else
+           if ds.isEmpty then pyErrE .valueError else
            let parts := strSplit ts ds
            if 0 ≤ idx && idx < parts.length then pure (.str (pyStrip (parts.getD idx.toNat ""))) else pure (.str "")
          | .none =>
            let parts := (splitWs [] ts.toList).map String.ofList
            if 0 ≤ idx && idx < parts.length then pure (.str (pyStrip (parts.getD idx.toNat ""))) else pure (.str "")
-         | _ => pyErr .typeError)
-      | _ => pyErr .attributeError
+         | _ => pyErrE .typeError)
+      | _ => pyErrE .attributeError
   | "substring" => do
     let (t, a, b) ← (match args with
       | [a, b] => pure (Val.str ctx.description, a, b)
       | [t, a, b] => pure (t, a, b)
-      | _ => exprErr "substring() requires 2 or 3 arguments" : M (Val × Val × Val))
+      | _ => exprErrE "substring() requires 2 or 3 arguments" : Except Err (Val × Val × Val))
     match isIntLike a, isIntLike b with
     | some s, some e =>
       (match t with
        | .str ts => pure (.str (String.ofList (pySlice ts.toList s e)))
        | .list xs => pure (.list (pySlice xs s e))
-       | _ => pyErr .typeError)
-    | _, _ => exprErr "substring() start and end must be integers"
+       | _ => pyErrE .typeError)
+    | _, _ => exprErrE "substring() start and end must be integers"
   | "trim" =>
     (match args with
      | [] => pure (.str (pyStrip ctx.description))
      | [x] => do let s ← pyStr o x; pure (.str (pyStrip s))
-     | _ => exprErr "trim() requires 0 or 1 arguments")
+     | _ => exprErrE "trim() requires 0 or 1 arguments")
   | "regex_replace" =>
     (match args with
      | [t, p, r] => do
        let ts ← pyStr o t; let ps ← pyStr o p; let rs ← pyStr o r
        match o.reSub ps rs ts with
        | some (some s) => pure (.str s)
-       | some none => pyErr .reError               -- `re.error` is NOT caught by regex_replace
-       | none => need "re_sub" [ps, rs, ts]
-     | _ => exprErr "regex_replace() requires 3 arguments")
+       | some none => pyErrE .reError               -- `re.error` is NOT caught by regex_replace
+       | none => needE "re_sub" [ps, rs, ts]
+     | _ => exprErrE "regex_replace() requires 3 arguments")
   | "uppercase" =>
     (match args with
      | [x] => do let s ← pyStr o x; let u ← pyUpper o s; pure (.str u)
-     | _ => exprErr "uppercase() requires 1 argument")
+     | _ => exprErrE "uppercase() requires 1 argument")
   | "lowercase" =>
     (match args with
      | [x] => do let s ← pyStr o x; let u ← pyLower o s; pure (.str u)
-     | _ => exprErr "lowercase() requires 1 argument")
+     | _ => exprErrE "lowercase() requires 1 argument")
   | "strip_prefix" =>
     (match args with
      | [t, p] => do
        let ts ← pyStr o t; let ps ← pyStr o p
        let tu ← pyUpper o ts; let pu ← pyUpper o ps
        if strStartsWith tu pu then pure (.str (String.ofList (ts.toList.drop ps.length))) else pure (.str ts)
-     | _ => exprErr "strip_prefix() requires 2 arguments")
+     | _ => exprErrE "strip_prefix() requires 2 arguments")
   | "strip_suffix" =>
     (match args with
      | [t, p] => do
@@ -442,46 +447,46 @@ def callFn (o : Oracles) (ctx : Ctx) (fname : String) (args : List Val) : M Val 
        let tu ← pyUpper o ts; let pu ← pyUpper o ps
        -- `text[:-len(suffix)]`: for an empty suffix this is `text[:0]`
        if strEndsWith tu pu then pure (.str (String.ofList (pySlice ts.toList 0 (-(ps.length : Int))))) else pure (.str ts)
-     | _ => exprErr "strip_suffix() requires 2 arguments")
+     | _ => exprErrE "strip_suffix() requires 2 arguments")
   | "abs" =>
     (match args with
      | [.int i] => pure (.int i.natAbs)
      | [.bool b] => pure (.int (if b then 1 else 0))
      | [.flt b] => pure (.flt (B (Float.abs (F b))))
      | [.tdelta d] => pure (.tdelta d.natAbs)
-     | _ => pyErr .typeError)
+     | _ => pyErrE .typeError)
   | "round" =>
     (match args with
      | [.int i] => pure (.int i)
      | [.bool b] => pure (.int (if b then 1 else 0))
      | [.flt b] => (match o.round b none with
        | some v => pure v
-       | none => need "round" [toString b.toNat])
+       | none => needE "round" [toString b.toNat])
      | [.flt b, n] => (match n with
        | .none => (match o.round b none with
          | some v => pure v
-         | none => need "round" [toString b.toNat])
+         | none => needE "round" [toString b.toNat])
        | _ => match isIntLike n with
          | some k => (match o.round b (some k) with
            | some v => pure v
-           | none => need "round" [toString b.toNat, intStr k])
-         | none => pyErr .typeError)
+           | none => needE "round" [toString b.toNat, intStr k])
+         | none => pyErrE .typeError)
      | [.int i, n] => (match n with
        | .none => pure (.int i)
        | _ => match isIntLike n with
-         | some k => if k ≥ 0 then pure (.int i) else raise (.unmodelled "round(int, negative)")
-         | none => pyErr .typeError)
+         | some k => if k ≥ 0 then pure (.int i) else raiseE (.unmodelled "round(int, negative)")
+         | none => pyErrE .typeError)
      | [.bool b, n] => (match n with
        | .none => pure (.int (if b then 1 else 0))
        | _ => match isIntLike n with
-         | some k => if k ≥ 0 then pure (.int (if b then 1 else 0)) else raise (.unmodelled "round(int, negative)")
-         | none => pyErr .typeError)
-     | _ => pyErr .typeError)
-  | other => raise (.unmodelled ("function in _FUNCTION_NAMES without a model: " ++ other))
+         | some k => if k ≥ 0 then pure (.int (if b then 1 else 0)) else raiseE (.unmodelled "round(int, negative)")
+         | none => pyErrE .typeError)
+     | _ => pyErrE .typeError)
+  | other => raiseE (.unmodelled ("function in _FUNCTION_NAMES without a model: " ++ other))
 
 /-! ### comparisons -/
 
-def cmpLink (o : Oracles) (op : CmpOp) (left right : Val) : M Bool :=
+def cmpLink (o : Oracles) (op : CmpOp) (left right : Val) : Except Err Bool :=
   match op with
   | .eq =>
     (match left, right with
@@ -491,23 +496,30 @@ def cmpLink (o : Oracles) (op : CmpOp) (left right : Val) : M Bool :=
     (match left, right with
      | .str a, .str b => do let x ← pyLower o a; let y ← pyLower o b; pure (x != y)
      | _, _ => pure (!pyEq left right))
-  | .lt => (match pyLt left right with | some b => pure b | none => pyErr .typeError)
-  | .le => (match pyLe left right with | some b => pure b | none => pyErr .typeError)
-  | .gt => (match pyLt right left with | some b => pure b | none => pyErr .typeError)
-  | .ge => (match pyLe right left with | some b => pure b | none => pyErr .typeError)
+  | .lt => (match pyLt left right with | some b => pure b | none => pyErrE .typeError)
+  | .le => (match pyLe left right with | some b => pure b | none => pyErrE .typeError)
+  | .gt => (match pyLt right left with | some b => pure b | none => pyErrE .typeError)
+  | .ge => (match pyLe right left with | some b => pure b | none => pyErrE .typeError)
   | .isIn | .notIn => do
     let r ← (match right with
       | .str rs =>
         (match left with
          | .str ls => do let lu ← pyUpper o ls; let ru ← pyUpper o rs; pure (strContains lu ru)
-         | _ => pyErr .typeError)
+         | _ => pyErrE .typeError)
       | .list xs => pure (xs.any (fun x => pyEq left x))      -- (a generator / NaN identity corner is outside the model)
       | .row kvs => if hashable left then (match left with
           | .str k => pure ((kvs.lookup k).isSome)
-          | _ => pure false) else pyErr .typeError
-      | .gen _ => raise (.unmodelled "membership in an escaped generator")
-      | _ => pyErr .typeError : M Bool)
+          | _ => pure false) else pyErrE .typeError
+      | .gen _ => raiseE (.unmodelled "membership in an escaped generator")
+      | _ => pyErrE .typeError : Except Err Bool)
     pure (if op == .isIn then r else !r)
+
+/-- date comparisons against ISO strings: `date ⋈ "YYYY-MM-DD"` (either side) parses the string -/
+def coerceDates (o : Oracles) (left right : Val) : Except Err (Val × Val) :=
+  match left, right with
+  | .date _, .str s => do let d ← parseDate o s; pure (left, Val.date d)
+  | .str s, .date _ => do let d ← parseDate o s; pure (Val.date d, right)
+  | _, _ => pure (left, right)
 
 /-! ### the interpreter -/
 
@@ -636,8 +648,8 @@ def eval (o : Oracles) (ctx : Ctx) : Expr → M Val
     match obj with
     | .str s =>
       (match m with
-       | "lower" => do let r ← pyLower o s; pure (.str r)
-       | "upper" => do let r ← pyUpper o s; pure (.str r)
+       | "lower" => do let r ← liftE (pyLower o s); pure (.str r)
+       | "upper" => do let r ← liftE (pyUpper o s); pure (.str r)
        | "strip" => pure (.str (pyStrip s))
        | "startswith" =>
          (match args with
@@ -675,7 +687,7 @@ def eval (o : Oracles) (ctx : Ctx) : Expr → M Val
        | [a] => catchExpr (do
            let v ← eval o ctx a
            if truthy v then do
-             let s ← pyStr o v
+             let s ← liftE (pyStr o v)
              pure (.bool (!(pyStrip s).isEmpty))
            else pure (.bool false))
            (pure (.bool false))
@@ -749,7 +761,7 @@ def eval (o : Oracles) (ctx : Ctx) : Expr → M Val
     | _ =>
       if fn == "abs" || fn == "round" || ctx.functionNames.contains fn then do
         let vs ← evalArgs o ctx args
-        callFn o ctx fn vs
+        liftE (callFn o ctx fn vs)
       else exprErr "Unknown function"
   | .callNameGen f elt gens more =>
     let fn := lowerName f
@@ -806,7 +818,7 @@ def eval (o : Oracles) (ctx : Ctx) : Expr → M Val
     | _ =>
       if fn == "abs" || fn == "round" || ctx.functionNames.contains fn then do
         let vs ← evalArgs o ctx more
-        callFn o ctx fn (Val.gen [] :: vs)     -- the generator object itself is never run by these functions
+        liftE (callFn o ctx fn (Val.gen [] :: vs))     -- the generator object itself is never run by these functions
       else exprErr "Unknown function"
   | .boolop isAnd es => do
     let b ← evalBool o ctx isAnd es
@@ -917,11 +929,8 @@ def evalLinks (o : Oracles) (ctx : Ctx) (left : Val) : List Link → M Bool
   | [] => pure true
   | .mk op e :: rest => do
     let right0 ← eval o ctx e
-    let (l, r) ← (match left, right0 with
-      | .date _, .str s => do let d ← parseDate o s; pure (left, Val.date d)
-      | .str s, .date _ => do let d ← parseDate o s; pure (Val.date d, right0)
-      | _, _ => pure (left, right0) : M (Val × Val))
-    let b ← cmpLink o op l r
+    let (l, r) ← liftE (coerceDates o left right0)
+    let b ← liftE (cmpLink o op l r)
     if b then evalLinks o ctx r rest else pure false
 
 def evalGens (o : Oracles) (ctx : Ctx) : List Comp → (Acc → M (Step Acc)) → Acc → M (Step Acc)
